@@ -30,7 +30,9 @@ func (P *Prog) switchAtoms() map[string][]string {
 			if !ok {
 				return
 			}
-			for _, a := range P.condAtoms(ifi.Cond, ifi, true, 0) {
+			// both outcomes: a test compiled into a boolean value first (`case a || b:`) yields its atoms only on the
+			// outcome that determines them
+			for _, a := range append(P.condAtoms(ifi.Cond, ifi, true, 0), P.condAtoms(ifi.Cond, ifi, false, 0)...) {
 				k := canonAtom(a.T.String())
 				if !litEqRe.MatchString(k) || regexp.MustCompile(`phi\(|loop|next\(range\(|\[\*\]`).MatchString(k) {
 					continue
